@@ -24,6 +24,27 @@ def _job(a):
     return (kind, hist, lifecycle.replay(kind, hist))
 
 
+def concretise(kind, hist, i):
+    """The spec's abstract point "q" (= p0 with ONE input changed) becomes 'p0~<field>', the field rotating with the job index."""
+    if not any(e[0] == "set" and e[1] in ("q", "z") for e in hist):
+        return hist
+    f, z = FIELDS[kind]
+    fld = f[i % len(f)]
+    zf = z[i % len(z)] if z else None
+    out = []
+    for e in hist:
+        if e[0] == "set" and e[1] == "q":
+            out.append(["set", "p0~" + fld])
+        elif e[0] == "set" and e[1] == "z":  # p1 with one input exactly zero
+            out.append(["set", ("p1!" + zf) if zf else "p1"])
+        else:
+            out.append(e)
+    return out
+
+
+FIELDS = {}
+
+
 def model_phase(R):
     tab = comptable.extract()
     tla = comptable.to_tla(tab)
@@ -156,8 +177,22 @@ def run(tier, only=None):
     fr = check_exc(pmap(_fresh_job, [(k, p) for k in kinds for p in ("p0", "p1", "p2")]))
     for kind, p, val in fr:
         lifecycle._FRESH[(kind, p, "auto")] = val
-    jobs = [(k, h) for k in kinds for h in hs]
-    cexjobs = [(k, c["h"]) for k in kinds for c in cex]
+    if tier == "quick" and len(hs) > 450:
+        # every-change budget: a seeded sample of the emitted histories (the thorough tier replays all of them)
+        import numpy as np
+
+        from ..common import seed
+
+        pick = np.random.default_rng(seed() + 3).choice(len(hs), 450, replace=False)
+        hs = [hs[i] for i in sorted(pick)]
+    for k in kinds:
+        _L = lifecycle.Live(k)
+        FIELDS[k] = (_L.fields(), _L.zero_fields())
+    jobs = [(k, concretise(k, h, i)) for k in kinds for i, h in enumerate(hs)]
+    need = sorted({(k, e[1]) for k, h in jobs for e in h if e[0] == "set" and ("~" in e[1] or "!" in e[1])})
+    for kind, p, val in check_exc(pmap(_fresh_job, need)):
+        lifecycle._FRESH[(kind, p, "auto")] = val
+    cexjobs = [(k, concretise(k, c["h"], i)) for k in kinds for i, c in enumerate(cex)]
     results = check_exc(pmap(_job, jobs + cexjobs))
     nreg = len(jobs)
     confirmed = set()
@@ -173,7 +208,7 @@ def run(tier, only=None):
                 confirmed.add(json.dumps(h))
     # mode T: recorded executions validated by TraceLifecycle
     long_h = sorted((h for h in hs if len(h) >= DEPTH[tier]), key=lambda h: -sum(1 for e in h if e[0] in ("totals", "check")))[: (4 if tier == "quick" else 24)]
-    tjobs = [(k, h) for k in kinds[:2] for h in long_h]
+    tjobs = [(k, concretise(k, h, i)) for k in kinds[:2] for i, h in enumerate(long_h)]
     tres = check_exc(pmap(_trace_history_job, tjobs)) + check_exc(pmap(_trace_repo_job, REPO_TESTS[tier]))
     traces = []
     for v in tres:
